@@ -54,7 +54,8 @@ use crate::{
             DATA_REPRESENTATION_QOS_POLICY_ID, DEADLINE_QOS_POLICY_ID,
             DESTINATIONORDER_QOS_POLICY_ID, DURABILITY_QOS_POLICY_ID, DurabilityQosPolicyKind,
             HistoryQosPolicy, LATENCYBUDGET_QOS_POLICY_ID, LIVELINESS_QOS_POLICY_ID,
-            LifespanQosPolicy, OWNERSHIP_QOS_POLICY_ID, PRESENTATION_QOS_POLICY_ID, QosPolicyId,
+            LifespanQosPolicy, OWNERSHIP_QOS_POLICY_ID, PRESENTATION_QOS_POLICY_ID,
+            PartitionQosPolicy, QosPolicyId,
             RELIABILITY_QOS_POLICY_ID, ReliabilityQosPolicyKind, ResourceLimitsQosPolicy,
             TransportPriorityQosPolicy, TypeConsistencyEnforcementQosPolicy,
             XCDR_DATA_REPRESENTATION,
@@ -849,49 +850,10 @@ impl DcpsDomainParticipant {
                         vec![]
                     };
 
-                    let is_any_name_matched = discovered_reader_data
-                        .dds_subscription_data
-                        .partition
-                        .name
-                        .iter()
-                        .any(|n| publisher.qos.partition.name.contains(n));
-
-                    let is_any_received_regex_matched_with_partition_qos = discovered_reader_data
-                        .dds_subscription_data
-                        .partition
-                        .name
-                        .iter()
-                        .filter_map(|n| Regex::new(&fnmatch_to_regex(n)).ok())
-                        .any(|regex| {
-                            publisher
-                                .qos
-                                .partition
-                                .name
-                                .iter()
-                                .any(|n| regex.is_match(n))
-                        });
-
-                    let is_any_local_regex_matched_with_received_partition_qos = publisher
-                        .qos
-                        .partition
-                        .name
-                        .iter()
-                        .filter_map(|n| Regex::new(&fnmatch_to_regex(n)).ok())
-                        .any(|regex| {
-                            discovered_reader_data
-                                .dds_subscription_data
-                                .partition
-                                .name
-                                .iter()
-                                .any(|n| regex.is_match(n))
-                        });
-
-                    let is_partition_matched =
-                        discovered_reader_data.dds_subscription_data.partition
-                            == publisher.qos.partition
-                            || is_any_name_matched
-                            || is_any_received_regex_matched_with_partition_qos
-                            || is_any_local_regex_matched_with_received_partition_qos;
+                    let is_partition_matched = is_partition_matched(
+                        &discovered_reader_data.dds_subscription_data.partition,
+                        &publisher.qos.partition,
+                    );
                     if is_partition_matched {
                         let publisher_qos = publisher.qos.clone();
 
@@ -1416,47 +1378,10 @@ impl DcpsDomainParticipant {
                         vec![]
                     };
 
-                    let is_any_name_matched = discovered_writer_data
-                        .dds_publication_data
-                        .partition
-                        .name
-                        .iter()
-                        .any(|n| subscriber_qos.partition.name.contains(n));
-
-                    let is_any_received_regex_matched_with_partition_qos = discovered_writer_data
-                        .dds_publication_data
-                        .partition
-                        .name
-                        .iter()
-                        .filter_map(|n| Regex::new(&fnmatch_to_regex(n)).ok())
-                        .any(|regex| {
-                            subscriber_qos
-                                .partition
-                                .name
-                                .iter()
-                                .any(|n| regex.is_match(n))
-                        });
-
-                    let is_any_local_regex_matched_with_received_partition_qos = subscriber_qos
-                        .partition
-                        .name
-                        .iter()
-                        .filter_map(|n| Regex::new(&fnmatch_to_regex(n)).ok())
-                        .any(|regex| {
-                            discovered_writer_data
-                                .dds_publication_data
-                                .partition
-                                .name
-                                .iter()
-                                .any(|n| regex.is_match(n))
-                        });
-
-                    let is_partition_matched =
-                        discovered_writer_data.dds_publication_data.partition
-                            == subscriber_qos.partition
-                            || is_any_name_matched
-                            || is_any_received_regex_matched_with_partition_qos
-                            || is_any_local_regex_matched_with_received_partition_qos;
+                    let is_partition_matched = is_partition_matched(
+                        &discovered_writer_data.dds_publication_data.partition,
+                        &subscriber_qos.partition,
+                    );
 
                     if is_partition_matched {
                         let reader_associated_topic = if let Some(matched_topic) = self
@@ -3368,6 +3293,41 @@ fn get_discovered_writer_incompatible_qos_policy_list(
     }
 
     incompatible_qos_policy_list
+}
+
+/// Two partition lists match when a name of one matches a name of the other, literally or as
+/// a fnmatch pattern. An empty list is the default partition, the same as the list [""].
+fn is_partition_matched(
+    discovered_partition: &PartitionQosPolicy,
+    local_partition: &PartitionQosPolicy,
+) -> bool {
+    let default_partition = [String::new()];
+    let discovered_names: &[String] = if discovered_partition.name.is_empty() {
+        &default_partition
+    } else {
+        &discovered_partition.name
+    };
+    let local_names: &[String] = if local_partition.name.is_empty() {
+        &default_partition
+    } else {
+        &local_partition.name
+    };
+
+    let is_any_name_matched = discovered_names.iter().any(|n| local_names.contains(n));
+
+    let is_any_discovered_regex_matched_with_local_name = discovered_names
+        .iter()
+        .filter_map(|n| Regex::new(&fnmatch_to_regex(n)).ok())
+        .any(|regex| local_names.iter().any(|n| regex.is_match(n)));
+
+    let is_any_local_regex_matched_with_discovered_name = local_names
+        .iter()
+        .filter_map(|n| Regex::new(&fnmatch_to_regex(n)).ok())
+        .any(|regex| discovered_names.iter().any(|n| regex.is_match(n)));
+
+    is_any_name_matched
+        || is_any_discovered_regex_matched_with_local_name
+        || is_any_local_regex_matched_with_discovered_name
 }
 
 fn fnmatch_to_regex(pattern: &str) -> String {
